@@ -1,3 +1,4 @@
+import Comdex.Model.AmmTick
 /-
 Ledger model of the x/liquidity keeper (shared by C04 "liquidity custody" and C07 "order settlement").
 Core Lean only.
@@ -18,6 +19,12 @@ validations.  The theorems quantify over all such inputs.
 
 Ghost components (never observable, only used to state the theorems): per order `taken / refunded / feeFwd`, and per pair two ghost accounts `mIn` / `mOut` accumulating what the matching engine took out of /
 handed to the pair escrow.
+
+Round 5: the price / tick / denom validations of `MsgLimitOrder`, `MsgMarketOrder`, `MsgMMOrder` (price limits around the pair's
+last price, `PriceToDownTick` / `PriceToUpTick`, "price is on a tick", `MMOrderTicks`, offer / demand denom = the pair's) are
+computed INSIDE the model (`orderPrice`, `mmTicks`, `placeOrderMsg`, `mmOrderMsg`, reusing `Model/AmmTick.lean`); the pair's
+last price is a state component (set from the observed match price of a batch).  The remaining `ext` Booleans (asset white-list
+of `MsgCreatePair`, `amm.Create*Pool` validation, coin denoms of deposit / withdraw / farm messages) are still observed inputs.
 -/
 namespace Comdex.LiqLedger
 
@@ -87,6 +94,7 @@ structure Pair where
   quote : Denom
   lastOrderId : Nat
   curBatch : Nat
+  lastPrice : Option Nat := none      -- pair.LastPrice (raw 10^-18); nil until the first match
   deriving Repr, BEq, DecidableEq
 
 structure Pool where
@@ -178,6 +186,9 @@ structure AppCfg where
   minInitDeposit : Nat
   minInitSupply : Nat
   maxPools : Nat
+  tickPrec : Nat := 4                                 -- TickPrecision
+  maxPriceRatio : Nat := 100000000000000000           -- MaxPriceLimitRatio, raw 10^-18 (default 10 %)
+  maxMMTicks : Nat := 10                              -- MaxNumMarketMakingOrderTicks
   deriving Repr, BEq
 
 structure Cfg where
@@ -334,6 +345,60 @@ def placeOrder (cfg : Cfg) (s : State) (app user pair : Nat) (typ : OType) (buy 
         let o := newOrder p id user typ buy price amount offer (offer + fee) (s.now + lifespan)
         some { (s1.modPair app pair fun q => { q with lastOrderId := id }) with orders := s1.orders ++ [o] }
 
+/-! ### The price / tick / denom validations of `ValidateMsgLimitOrder` / `ValidateMsgMarketOrder` (swap.go:56-92, 186-218) -/
+
+/-- `amm.PriceToDownTick` / `amm.PriceToUpTick` on non-negative raws -/
+def downTickN (prec price : Nat) : Nat := (Amm.priceToDownTick price prec).toNat
+def upTickN (prec price : Nat) : Nat := (Amm.priceToUpTick price prec).toNat
+
+/-- `a.Mul(b)` of `LegacyDec` (half-even chop) on non-negative raws -/
+def mulDecN (a b : Nat) : Nat := (Dec.mul a b).toNat
+
+/-- `types.PriceLimits(lastPrice, ratio, prec)` (types/util.go:108-112):
+`(PriceToUpTick(last·(1−ratio)), PriceToDownTick(last·(1+ratio)))` -/
+def priceLimits (ac : AppCfg) (last : Nat) : Nat × Nat :=
+  (upTickN ac.tickPrec (mulDecN last (DEC - ac.maxPriceRatio)), downTickN ac.tickPrec (mulDecN last (DEC + ac.maxPriceRatio)))
+
+/-- swap.go:56-62 / 307-313: the limits around the last price, or the whole tick range when there is none -/
+def limitsOf (ac : AppCfg) (p : Pair) : Nat × Nat :=
+  match p.lastPrice with
+  | some l => priceLimits ac l
+  | none => ((Amm.lowestTick ac.tickPrec).toNat, (Amm.highestTick ac.tickPrec).toNat)
+
+/-- the order price the keeper computes, `none` = rejected (`ErrPriceOutOfRange` / `ErrNoLastPrice`):
+limit order — the message price must lie within the limits and is fitted to a tick (buy: down, sell: up);
+market order — the last price pushed to the limit, fitted to a tick. -/
+def orderPrice (ac : AppCfg) (p : Pair) (typ : OType) (buy : Bool) (msgPrice : Nat) : Option Nat :=
+  match typ with
+  | .limit =>
+    if (limitsOf ac p).2 < msgPrice ∨ msgPrice < (limitsOf ac p).1 then none
+    else some (if buy then downTickN ac.tickPrec msgPrice else upTickN ac.tickPrec msgPrice)
+  | .market =>
+    match p.lastPrice with
+    | none => none
+    | some l =>
+      some (if buy then downTickN ac.tickPrec (mulDecN l (DEC + ac.maxPriceRatio))
+            else upTickN ac.tickPrec (mulDecN l (DEC - ac.maxPriceRatio)))
+  | .mm => none
+
+/-- `MsgLimitOrder` / `MsgMarketOrder` as delivered: `od` / `dd` are the offer-coin denom and the demand-coin denom of the
+message.  The tick-fitted price and the stateless validations (`ext` of `placeOrder`) are computed here: price within the
+limits (limit) / last price present (market), `od` / `dd` are the pair's quote / base (buy) or base / quote (sell), `od ≠ dd`
+(ValidateBasic).  All guards reject without writing, so their relative order does not matter. -/
+def placeOrderMsg (cfg : Cfg) (s : State) (app user pair : Nat) (typ : OType) (buy : Bool) (od dd : Denom)
+    (msgOffer msgPrice amount : Nat) (lifespan : Int) : Option State :=
+  match cfg.app? app with
+  | none => none
+  | some ac =>
+    match s.pair? app pair with
+    | none => none
+    | some p =>
+      match orderPrice ac p typ buy msgPrice with
+      | none => none
+      | some price =>
+        placeOrder cfg s app user pair typ buy msgOffer msgPrice price amount lifespan
+          (decide (od = sideIn p buy ∧ dd = sideOut p buy ∧ od ≠ dd))
+
 /-! ## Cancellation (swap.go:441-604) -/
 
 def cancelOrder (cfg : Cfg) (s : State) (app user pair id : Nat) : Option State :=
@@ -448,6 +513,60 @@ def mmOrder (cfg : Cfg) (s : State) (app user pair : Nat) (buys sells : List Tic
                    orders := s3.orders ++ (ob ++ os),
                    mm := (s3.mm.filter fun x => !isMM app pair user x) ++
                          [{ app := app, pair := pair, owner := user, ids := (ob ++ os).map (·.id) }] }
+
+/-! ### `types.MMOrderTicks` (types/util.go:139-192) and the validations of `MsgMMOrder` (msgs.go:558-600, swap.go:283-330) -/
+
+/-- consecutive duplicates dropped (`if prevP.IsNil() || !p.Equal(prevP)`) -/
+def dedupAdj : List Nat → List Nat
+  | [] => []
+  | [x] => [x]
+  | x :: y :: t => if x = y then dedupAdj (y :: t) else x :: dedupAdj (y :: t)
+
+/-- `MMOrderTicks(dir, minPrice, maxPrice, amt, maxNumTicks, tickPrec)`: one tick when the two prices coincide; otherwise
+`maxN − 1` prices `min + gap·i` (buy, fitted down) / `max − gap·i` (sell, fitted up) with `gap = ⌊(max − min)/(maxN − 1)⌋` (raw),
+consecutive duplicates dropped, each with `⌊amt/(k+1)⌋`, and a last tick at `max` (buy) / `min` (sell) with the rest. -/
+def mmTicks (buy : Bool) (prec maxN minP maxP amt : Nat) : List Tick :=
+  if minP = maxP then [{ offer := offerAmt buy minP amt, price := minP, amount := amt }]
+  else
+    let gap := (maxP - minP) / (maxN - 1)
+    let ps := dedupAdj ((List.range (maxN - 1)).map fun i =>
+      if buy then downTickN prec (minP + gap * i) else upTickN prec (maxP - gap * i))
+    let tickAmt := amt / (ps.length + 1)
+    let rest := amt - tickAmt * ps.length
+    let lastP := if buy then maxP else minP
+    ps.map (fun p => ({ offer := offerAmt buy p tickAmt, price := p, amount := tickAmt } : Tick)) ++
+      [{ offer := offerAmt buy lastP rest, price := lastP, amount := rest }]
+
+/-- `PriceToDownTick(p, prec).Equal(p)` -/
+def onTick (prec p : Nat) : Bool := downTickN prec p == p
+
+/-- `MsgMMOrder` as delivered (ValidateBasic msgs.go:558-600, then swap.go:272-440): amounts and the four prices of the
+message; ticks and all stateless validations are computed here.  A side with amount 0 is absent (its prices are ignored). -/
+def mmOrderMsg (cfg : Cfg) (s : State) (app user pair : Nat) (maxSell minSell sellAmt maxBuy minBuy buyAmt : Nat)
+    (lifespan : Int) : Option State :=
+  -- ValidateBasic
+  if pair = 0 ∨ (sellAmt = 0 ∧ buyAmt = 0) ∨ lifespan < 0 then none else
+  if sellAmt ≠ 0 ∧ (sellAmt < MINCOIN ∨ maxSell = 0 ∨ minSell = 0 ∨ maxSell < minSell) then none else
+  if buyAmt ≠ 0 ∧ (buyAmt < MINCOIN ∨ minBuy = 0 ∨ maxBuy = 0 ∨ maxBuy < minBuy) then none else
+  match cfg.app? app with
+  | none => none
+  | some ac =>
+    -- ErrPriceNotOnTicks
+    if sellAmt ≠ 0 ∧ ¬ (onTick ac.tickPrec minSell = true ∧ onTick ac.tickPrec maxSell = true) then none else
+    if buyAmt ≠ 0 ∧ ¬ (onTick ac.tickPrec minBuy = true ∧ onTick ac.tickPrec maxBuy = true) then none else
+    match s.pair? app pair with
+    | none => none
+    | some p =>
+      let lo := (limitsOf ac p).1
+      let hi := (limitsOf ac p).2
+      -- ErrPriceOutOfRange
+      if sellAmt ≠ 0 ∧ (minSell < lo ∨ hi < minSell ∨ maxSell < lo ∨ hi < maxSell) then none else
+      if buyAmt ≠ 0 ∧ (minBuy < lo ∨ hi < minBuy ∨ maxBuy < lo ∨ hi < maxBuy) then none else
+      -- `QuoInt64(maxNumTicks - 1)` divides by zero (panic) when a side has two distinct prices and maxNumTicks = 1
+      if ac.maxMMTicks ≤ 1 ∧ ((sellAmt ≠ 0 ∧ minSell ≠ maxSell) ∨ (buyAmt ≠ 0 ∧ minBuy ≠ maxBuy)) then none else
+      let buys := if buyAmt ≠ 0 then mmTicks true ac.tickPrec ac.maxMMTicks minBuy maxBuy buyAmt else []
+      let sells := if sellAmt ≠ 0 then mmTicks false ac.tickPrec ac.maxMMTicks minSell maxSell sellAmt else []
+      mmOrder cfg s app user pair buys sells lifespan true
 
 /-! ## Pairs and pools -/
 
@@ -765,6 +884,7 @@ structure MatchIn where
   fills : List Fill
   pools : List PoolFlow
   dust : Nat
+  last : Option Nat := none    -- the match price (`pair.LastPrice = &matchPrice` when matched); `none` = nothing matched
   deriving Repr, BEq
 
 structure DepIn where
@@ -863,7 +983,8 @@ def execMatching (cfg : Cfg) (ms : List MatchIn) (s : State) (pk : Nat × Nat) :
       let m := (ms.find? (·.pair == p.id)).getD (emptyMatch p.id)
       match applyMatch cfg s2 p m with
       | none => none
-      | some s3 => some (s3.modPair p.app p.id fun q => { q with curBatch := q.curBatch + 1 })
+      | some s3 => some (s3.modPair p.app p.id fun q =>
+          { q with curBatch := q.curBatch + 1, lastPrice := match m.last with | some x => some x | none => q.lastPrice })
 
 /-- batch.go:21-36: expiry and too-small sweep, one order -/
 def sweep (cfg : Cfg) (s : State) (k : OKey) : Option State :=
@@ -914,6 +1035,27 @@ def beginBlock (s : State) (app : Nat) : State :=
            wdrs := s.wdrs.filter fun r => !(r.app == app && r.status != .pending),
            orders := s.orders.filter fun o => !(o.app == app && !o.status.live) }
 
+/-! ## Store migration 1 → 2 (keeper/migrations.go, legacy/v2/store.go) -/
+
+/-- representable in the consensus-version-1 store layout (`legacy/v1`): orders have no type field (market-making orders and
+their index came with version 2) and there are no ranged pools -/
+def V1Store (s : State) : Prop := (∀ o ∈ s.orders, o.typ ≠ .mm) ∧ s.mm = [] ∧ (∀ q ∈ s.pools, q.ranged = false)
+
+instance (s : State) : Decidable (V1Store s) := by unfold V1Store; infer_instance
+
+/-- `Migrator.Migrate1to2` = `legacy/v2.MigrateStore`, registered in module.go as the consensus-version 1 → 2 migration: for
+every app the generic params are re-encoded (the three fields new in version 2 get the defaults — `Cfg` holds the
+post-migration values), every pool record becomes `Type = basic`, every order record is copied field by field
+(offer coin, REMAINING offer coin, received coin, price, amount, open amount, batch id, expiry, status) and gets `Type = limit`
+("no way to determine whether the order was made through MsgLimitOrder or MsgMarketOrder").  Nothing else is touched: no
+bank movement, pairs, requests and farmers stay.  Defined on version-1 stores. -/
+def migrate (cfg : Cfg) (s : State) : Option State :=
+  if V1Store s then
+    some { s with
+      orders := s.orders.map fun o => if (cfg.app? o.app).isSome then { o with typ := .limit } else o,
+      pools := s.pools.map fun q => if (cfg.app? q.app).isSome then { q with ranged := false } else q }
+  else none
+
 /-! ## Operations -/
 
 inductive Op where
@@ -922,8 +1064,8 @@ inductive Op where
   | createPool (app creator pair : Nat) (ranged : Bool) (dx dy ammPs : Nat) (ext : Bool)
   | deposit (app user pool dx dy : Nat) (ext : Bool)
   | withdraw (app user pool pc : Nat) (ext : Bool)
-  | order (app user pair : Nat) (typ : OType) (buy : Bool) (msgOffer msgPrice price amount : Nat) (lifespan : Int) (ext : Bool)
-  | mmOrder (app user pair : Nat) (buys sells : List Tick) (lifespan : Int) (ext : Bool)
+  | order (app user pair : Nat) (typ : OType) (buy : Bool) (od dd : Denom) (msgOffer msgPrice amount : Nat) (lifespan : Int)
+  | mmOrder (app user pair : Nat) (maxSell minSell sellAmt maxBuy minBuy buyAmt : Nat) (lifespan : Int)
   | cancel (app user pair id : Nat)
   | cancelAll (app user : Nat) (pairs : List Nat)
   | cancelMM (app user pair : Nat)
@@ -933,6 +1075,7 @@ inductive Op where
   | unfarmAndWithdraw (app user pool amt x y : Nat) (ext : Bool)
   | endBlock (app : Nat) (ms : List MatchIn) (dins : List DepIn) (wins : List WdrIn)
   | beginBlock (app : Nat)
+  | migrate
   deriving Repr
 
 /-- one message / block hook; `none` = rejected (the state is then left as it was, see `stepT`) -/
@@ -942,8 +1085,8 @@ def step (cfg : Cfg) (s : State) : Op → Option State
   | .createPool a c p r dx dy ps e => createPool cfg s a c p r dx dy ps e
   | .deposit a u p dx dy e => (depositReq cfg s a u p dx dy e).map (·.1)
   | .withdraw a u p pc e => (withdrawReq cfg s a u p pc e).map (·.1)
-  | .order a u p t b mo mp pr am l e => placeOrder cfg s a u p t b mo mp pr am l e
-  | .mmOrder a u p bs ss l e => mmOrder cfg s a u p bs ss l e
+  | .order a u p t b od dd mo mp am l => placeOrderMsg cfg s a u p t b od dd mo mp am l
+  | .mmOrder a u p xs ns sa xb nb ba l => mmOrderMsg cfg s a u p xs ns sa xb nb ba l
   | .cancel a u p i => cancelOrder cfg s a u p i
   | .cancelAll a u ps => cancelAll cfg s a u ps
   | .cancelMM a u p => cancelMM cfg s a u p
@@ -953,6 +1096,7 @@ def step (cfg : Cfg) (s : State) : Op → Option State
   | .unfarmAndWithdraw a u p n x y e => unfarmAndWithdraw cfg s a u p n x y e
   | .endBlock a ms ds ws => endBlock cfg s a ms ds ws
   | .beginBlock a => some (beginBlock s a)
+  | .migrate => migrate cfg s
 
 /-- what the chain does: a rejected message / a failed block hook leaves the state untouched
 (CacheContext written back only on success; `ApplyFuncIfNoError`). -/
